@@ -58,7 +58,7 @@ func startBor(e *chainEnv, gnum uint64, producers []ecommon.Address, prop int, r
 	}
 	vals[prop].Accum = 5
 	gj, err := json.Marshal(map[string]interface{}{
-		"Header": g,
+		"Header":   g,
 		"Snapshot": map[string]interface{}{"hash": g.Hash(), "validatorSet": map[string]interface{}{"validators": vals, "proposer": vals[prop]}},
 	})
 	if err != nil {
